@@ -1,6 +1,7 @@
 package rules
 
 import (
+	"go/token"
 	"go/types"
 	"sort"
 	"strings"
@@ -12,57 +13,14 @@ import (
 
 // C33 — request signature chains are accepted only if every layer verifies (structural half).
 func init() {
-	register(&Check{ID: "C33", Level: "other", Pkgs: []string{"./internal/crypto", "./pkg/services/...", "./cmd/neofs-node"}, Run: runC33})
+	register(&Check{ID: "C33", Level: "other", Pkgs: []string{"./internal/crypto", "./pkg/services/...", "./cmd/neofs-node", "./pkg/network/peerauth", "./pkg/innerring/processors/netmap/nodevalidation/..."}, Run: runC33})
 }
 
 func runC33(p *core.Prog, r *core.Report) {
 	r.Explain = "The layer-by-layer verification itself lives in the SDK (VerifyRequestWithBufferN3) and is not analysed. Decided here: (R1) requestNeedsSignature can answer 'no' only on the path {no verification header, meta header present, TTL==1, IsTrustedPeer(ctx)}; (R2) each VerifyRequestSignatures* wrapper returns nil only through that exemption or a nil result of verifyRequestSignatures, which itself returns nil only when the SDK verifier did; (R3) for every gRPC service registered in cmd/neofs-node (derived from the Register*ServiceServer call sites) every method of the generated server interface verifies the signature of its own request before any call through the server's state. Not covered: byte-level mutation of signed fields, the SDK verifier."
 	// ---- R1
-	r1 := r.Rule("C33.R1", "requestNeedsSignature returns false only when: no verification header, meta header present, TTL == 1 and the peer connection is authenticated", 3)
-	if fn := p.Func("internal/crypto.requestNeedsSignature"); fn == nil {
-		r.Fatalf("C33.R1: requestNeedsSignature not found")
-	} else {
-		guards := []core.Guard{
-			{Name: "no-verify-header", Match: func(s core.Site) bool { return strings.HasSuffix(s.Name, ").GetVerifyHeader") }, Comps: []core.Comp{{Result: -1, Kind: core.IsNil}}},
-			{Name: "meta-present", Match: func(s core.Site) bool { return strings.HasSuffix(s.Name, ").GetMetaHeader") }, Comps: []core.Comp{{Result: -1, Kind: core.NonNil}}},
-			{Name: "ttl-is-1", Match: func(s core.Site) bool { return strings.HasSuffix(s.Name, "RequestMetaHeader).GetTtl") }, Comps: []core.Comp{{Result: -1, Kind: core.EqConst, Const: 1}}},
-		}
-		gf := core.Flow(fn, guards)
-		n := 0
-		for _, b := range fn.Blocks {
-			ret, ok := b.Instrs[len(b.Instrs)-1].(*ssa.Return)
-			if !ok {
-				continue
-			}
-			n++
-			v := ret.Results[0]
-			key := core.FuncName(fn) + "#return"
-			if c, ok := v.(*ssa.Const); ok {
-				if bv, isB := constBool(c); isB && bv {
-					r1.OKTrivial(key+"-true", p.InstrPos(ret), "returns true (signature required)")
-					continue
-				}
-				r1.Bad(key+"-false", p.InstrPos(ret), "returns constant false: signature exemption without the trusted-peer test")
-				continue
-			}
-			// must be !IsTrustedPeer(ctx) with all guards passed
-			ok = false
-			if u, isU := v.(*ssa.UnOp); isU && u.Op.String() == "!" {
-				if c, isC := u.X.(*ssa.Call); isC && core.CalleeName(c) == "pkg/network/peerauth.IsTrustedPeer" && core.ParamIndex(fn, c.Call.Args[0]) == 0 {
-					ok = true
-				}
-			}
-			if !ok {
-				r1.Bad(key+"-exempt", p.InstrPos(ret), "the exemption result is not !peerauth.IsTrustedPeer(ctx)")
-				continue
-			}
-			miss := gf.Missing(gf.At(ret), []int{0, 1, 2})
-			r1.Check(len(miss) == 0, key+"-exempt", p.InstrPos(ret), "exemption reachable only with no verification header, meta header present and TTL==1", "exemption reachable without "+strings.Join(miss, ","))
-		}
-		if n == 0 {
-			r.Fatalf("C33.R1: no returns")
-		}
-	}
+	r1 := r.Rule("C33.R1", "requestNeedsSignature returns false only when: no verification header, meta header present, TTL == 1 and the peer connection is authenticated", 2)
+	signatureExemptionRule(p, r, r1)
 	// ---- R2
 	r2 := r.Rule("C33.R2", "VerifyRequestSignatures* return nil only via the exemption or verifyRequestSignatures()==nil; verifyRequestSignatures returns nil only if the SDK verifier did", 4)
 	needs := core.G("needs-signature-false", core.IsFalse, "internal/crypto.requestNeedsSignature").Where(func(s core.Site) bool {
@@ -162,6 +120,43 @@ func runC33(p *core.Prog, r *core.Report) {
 		}
 	}
 	runC33N3(p, r)
+	// ---- R6 the key of an 'authenticated peer' is the key the handshake proved
+	r6 := r.Rule("C33.R6", "a peer key is taken only from the FIRST certificate of the presented chain (the only one whose key the TLS handshake proves possession of; the rest of the chain is not verified): every call of peerauth.CertificatePublicKey gets chain[0] or the parsed rawCerts[0]", 3)
+	peerKeyFromLeafOnly(p, r, r6)
+	r.Explain += " (R6) the exemption of R1 trusts the key attached to the connection; that key is read from element 0 of the peer's certificate chain at every site that derives a key from a certificate (the server requests a client certificate without verifying the chain, so only the leaf's key is proven by the handshake)."
+}
+
+func peerKeyFromLeafOnly(p *core.Prog, r *core.Report, h *core.RuleH) {
+	isElem0 := func(v ssa.Value) bool {
+		u, ok := v.(*ssa.UnOp)
+		if !ok || u.Op != token.MUL {
+			return false
+		}
+		ia, ok := u.X.(*ssa.IndexAddr)
+		if !ok {
+			return false
+		}
+		k, isK := intConstOf(ia.Index)
+		return isK && k == 0
+	}
+	n := 0
+	for _, s := range core.CallSites(p.Funcs(), func(s core.Site) bool { return s.Name == "pkg/network/peerauth.CertificatePublicKey" }) {
+		n++
+		a := s.Call.Common().Args[0]
+		ok := isElem0(a)
+		if !ok {
+			if ex, isEx := a.(*ssa.Extract); isEx && ex.Index == 0 {
+				if c, isC := ex.Tuple.(*ssa.Call); isC && core.CalleeName(c) == "crypto/x509.ParseCertificate" {
+					ok = isElem0(c.Call.Args[0])
+				}
+			}
+		}
+		h.Check(ok, core.FuncName(s.Fn)+"#certificate", p.InstrPos(s.Call), "the key is read from the first certificate of the chain",
+			"a peer key is read from a certificate other than (or not provably) the first of the presented chain: the handshake proves possession of the leaf key only, so a client can append anybody's certificate and its unsigned TTL=1 requests are accepted and attributed to that key")
+	}
+	if n == 0 {
+		r.Fatalf("C33.R6: no caller of peerauth.CertificatePublicKey found")
+	}
 }
 
 // runC33N3 — R5: the per-signature N3 callback and the script runner it ends in.
@@ -366,5 +361,53 @@ func checkServiceHandler(p *core.Prog, h *core.RuleH, fn *ssa.Function) {
 	}})
 	if n == 0 {
 		h.Bad(core.FuncName(fn)+"#no-effect", p.Pos(fn.Pos()), "handler has no effect site: effect table out of date for this service")
+	}
+}
+
+// signatureExemptionRule: shared by C33.R1 and C29.R7.
+func signatureExemptionRule(p *core.Prog, r *core.Report, r1 *core.RuleH) {
+	if fn := p.Func("internal/crypto.requestNeedsSignature"); fn == nil {
+		r.Fatalf("%s: requestNeedsSignature not found", r1.ID())
+	} else {
+		guards := []core.Guard{
+			{Name: "no-verify-header", Match: func(s core.Site) bool { return strings.HasSuffix(s.Name, ").GetVerifyHeader") }, Comps: []core.Comp{{Result: -1, Kind: core.IsNil}}},
+			{Name: "meta-present", Match: func(s core.Site) bool { return strings.HasSuffix(s.Name, ").GetMetaHeader") }, Comps: []core.Comp{{Result: -1, Kind: core.NonNil}}},
+			{Name: "ttl-is-1", Match: func(s core.Site) bool { return strings.HasSuffix(s.Name, "RequestMetaHeader).GetTtl") }, Comps: []core.Comp{{Result: -1, Kind: core.EqConst, Const: 1}}},
+		}
+		gf := core.Flow(fn, guards)
+		n := 0
+		for _, b := range fn.Blocks {
+			ret, ok := b.Instrs[len(b.Instrs)-1].(*ssa.Return)
+			if !ok {
+				continue
+			}
+			n++
+			v := ret.Results[0]
+			key := core.FuncName(fn) + "#return"
+			if c, ok := v.(*ssa.Const); ok {
+				if bv, isB := constBool(c); isB && bv {
+					r1.OKTrivial(key+"-true", p.InstrPos(ret), "returns true (signature required)")
+					continue
+				}
+				r1.Bad(key+"-false", p.InstrPos(ret), "returns constant false: signature exemption without the trusted-peer test")
+				continue
+			}
+			// must be !IsTrustedPeer(ctx) with all guards passed
+			ok = false
+			if u, isU := v.(*ssa.UnOp); isU && u.Op.String() == "!" {
+				if c, isC := u.X.(*ssa.Call); isC && core.CalleeName(c) == "pkg/network/peerauth.IsTrustedPeer" && core.ParamIndex(fn, c.Call.Args[0]) == 0 {
+					ok = true
+				}
+			}
+			if !ok {
+				r1.Bad(key+"-exempt", p.InstrPos(ret), "the exemption result is not !peerauth.IsTrustedPeer(ctx)")
+				continue
+			}
+			miss := gf.Missing(gf.At(ret), []int{0, 1, 2})
+			r1.Check(len(miss) == 0, key+"-exempt", p.InstrPos(ret), "exemption reachable only with no verification header, meta header present and TTL==1", "exemption reachable without "+strings.Join(miss, ","))
+		}
+		if n == 0 {
+			r.Fatalf("%s: no returns", r1.ID())
+		}
 	}
 }
